@@ -276,6 +276,7 @@ func init() {
 			cfg := eng.GenConfig(r, pickBacking(r, "none", "store", "store", "store", "custom"), true)
 			gp := eng.GenParams{MinBatches: 3, MaxBatches: 16, NKeys: 4 + r.Intn(6), Park: true, Reopen: true, Merge: true,
 				Children: cfg.Backing != "custom" && r.Chance(1, 2), Idle: true, QuietPct: 30, CrossBias: true, BytelessPct: 4}
+			gp.Nested = gp.Children && idx%3 == 0
 			if idx%4 == 3 {
 				gp.RefusePct = 20 // the operator refuses for a while; the operands must still fold once, in order
 			}
